@@ -78,6 +78,10 @@ def has_empty_string(x):
     return False
 
 
+# string members that the package's structs declare with omitempty although the Swagger 2.0 schema requires them (finding F15)
+F15_MEMBERS = {"swagger", "title", "version", "name", "in", "url", "type", "flow", "authorizationUrl", "tokenUrl"}
+
+
 def classify(doc, out, stage):
     errs = errors(out)
     if not errs:
@@ -93,11 +97,22 @@ def classify(doc, out, stage):
     # F17: a reference object whose $ref is the empty string gains a description
     if isinstance(inst, dict) and inst.get("$ref") == "":
         return ("empty-ref-reference-object", msg[:200], path)
-    # F15: a required member that was present as an empty string was dropped (omitempty)
+    # F15: a required member that was present as an empty string was dropped (omitempty) - for the members that finding lists;
+    # another member lost the same way is another failure
+    def f15_shape():
+        msgs = [msg] + [c.message for c in (e.context or [])]
+        req = [m.group(1) for m in (re.match(r"^'([^']+)' is a required property$", x) for x in msgs) if m]
+        lost = req
+        if not lost and isinstance(src, dict) and isinstance(inst, dict):
+            lost = [k for k, v in src.items() if v == "" and k not in inst]
+        other = [k for k in lost if k not in F15_MEMBERS and isinstance(src, dict) and src.get(k) == ""]
+        if other:
+            return "required-empty-string-dropped:" + sorted(other)[0]
+        return "required-empty-string-dropped"
     if src is not None and has_empty_string(src) and not has_empty_string(inst):
-        return ("required-empty-string-dropped", msg[:200], path)
+        return (f15_shape(), msg[:200], path)
     if src is not None and has_empty_string(src) and "required" in json.dumps([c.message for c in (e.context or [])] + [msg]):
-        return ("required-empty-string-dropped", msg[:200], path)
+        return (f15_shape(), msg[:200], path)
     keys = [str(p) if not isinstance(p, int) else "*" for p in path]
     return ("%s-invalid:%s" % (stage, "/".join(keys[-2:])), msg[:300], path)
 
@@ -182,6 +197,9 @@ def with_refs(doc, rng):
     resps["Rec"] = {"description": "recursive", "schema": {"$ref": "#/definitions/" + rng.choice(["Node", "Pong"])}}
     resps["Any"] = {"description": "any", "schema": sch()}
     resps["Plain"] = {"description": "plain"}
+    # a description is required but may be empty - also next to a schema that is a reference (to a recursive definition: it survives expansion)
+    resps["Blank"] = {"description": "", "schema": {"$ref": "#/definitions/" + rng.choice(["Node", "Ping"])}}
+    resps["BlankPlain"] = {"description": ""}
     used = False
     for p, item in (d.get("paths") or {}).items():
         if p.startswith("x-") or not isinstance(item, dict) or "$ref" in item:
@@ -198,7 +216,7 @@ def with_refs(doc, rng):
                 used = True
             rs = op.get("responses")
             if isinstance(rs, dict) and rng.random() < 0.7:
-                rs[rng.choice(["default", "200", "404", "default"])] = {"$ref": "#/responses/" + rng.choice(["Rec", "Any", "Plain"])}
+                rs[rng.choice(["default", "200", "404", "default"])] = {"$ref": "#/responses/" + rng.choice(["Rec", "Any", "Plain", "Blank", "BlankPlain"])}
                 used = True
     return d if used else None
 
